@@ -242,6 +242,35 @@ func (fr *Frame) applyContract(s *State, g *Term, fc *FuncContract, callee *ssa.
 	cf.params = args
 	cf.paramNames = names
 	cf.sig = sig
+	cf.declareGhosts()
+	// instances of the callee's rigid ghosts chosen by the caller's contract
+	for _, gcl := range fc.Ghosts {
+		bound := false
+		for top := fr; top != nil; top = top.parent {
+			if top.contract == nil {
+				continue
+			}
+			for _, cg := range top.contract.CallGhosts {
+				if cg.Ghost == gcl.Ghost && strings.HasSuffix(fc.Key, cg.CbName) {
+					v := top.evalClauseAt(cg, s, nil, nil)
+					if want := x.ghostSort(cf.ghostTypes[gcl.Ghost]); v.sort != want {
+						cfail("%s: callghost %s: value has sort %s, want %s", x.P.posStr(cg.Pos), cg.Ghost, v.sort, want)
+					}
+					cf.olds[gcl.Ghost] = v
+					bound = true
+				}
+			}
+			if bound || top.top {
+				break
+			}
+		}
+		if !bound {
+			if _, ok := s.ghost[gcl.Ghost]; !ok {
+				cfail("%s: call to %s: its ghost %q has no instance here (add `callghost %s %s = EXPR` to the caller's contract or declare a ghost of that name)",
+					x.P.posStr(pos), shortKey(fc.Key), gcl.Ghost, lastDot(fc.Key), gcl.Ghost)
+			}
+		}
+	}
 	x.funcsUnderContract[fc.Key] = true
 	if fc.Trusted != "" {
 		x.note("assumed contract (trusted): " + shortKey(fc.Key) + " — " + fc.Trusted)
